@@ -268,7 +268,12 @@ def run(ctx: Ctx) -> int:
             if c[0] == "Evaluate":
                 needed.add(tuple(context_of(h[: j + 1])))
     if q:
-        tuples = [list(t) for t in sorted(needed)]
+        # quick: where the specification fixes the outcome it IS the oracle; the same call made alone is only needed where it does not
+        def definite(t):
+            e_ = spec_out.get((t[1], t[2], t[3]))
+            return e_ is not None and e_.get("t") not in ("indef", "none")
+        tuples = [list(t) for t in sorted(needed) if not definite(t)]
+        ctx.cov["replay_note_alone"] = "quick: 'alone' oracle processes only for the %d (runner, declarations, expression, bindings) whose outcome the specification leaves open" % len(tuples)
     # the "alone" oracle: the evaluation performed alone in a process forked from a parent that has only imported the library;
     # a sample of them is cross-checked against truly fresh interpreters (new process, new import)
     alone_runs = fork_replay([[["NewEnv", t[0], t[1]], ["Program", 1, t[2]], ["Evaluate", 1, t[3]]] for t in tuples], ctx.work, "alone")
@@ -299,7 +304,7 @@ def run(ctx: Ctx) -> int:
         nev += 1
         rr, d, e, b = context_of(hist)
         got = rec["got"]
-        if got != alone[(rr, d, e, b)]:
+        if (rr, d, e, b) in alone and got != alone[(rr, d, e, b)]:
             ctx.disagree("differs-from-alone " + describe(hist), {"history": hist[-12:], "history_length": len(hist), "observed": got, "alone": alone[(rr, d, e, b)]})
         exp = spec_out.get((d, e, b))
         if exp is not None and exp.get("t") not in ("indef", "none"):
